@@ -89,8 +89,22 @@ def timeOp (j : Json) : Except String Json := do
   pure (Json.mkObj [("step", ratToJson (timeStep nf dt)), ("true_step", ratToJson (trueStep nf dt)),
     ("n", (5 * nf / 2 : Nat))])
 
+/-- `{"op":"efdd_ifft","nf","bell":[nf],"tw":[5·nf],"rs","ts":[…]}`: the model `ifftRe` of
+    `np.fft.ifft(SDOFbell, n=5·nf, axis=0, norm="ortho").real` at the lags `ts`; the twiddle table
+    `tw[m] = exp(2πi·m/(5·nf))` and `rs = 1/√(5·nf)` are evaluated by the caller. -/
+def ifftOp (j : Json) : Except String Json := do
+  let nf ← natOfJson (← field j "nf")
+  let bell ← arrOf cxOfJson (← field j "bell")
+  let tw ← arrOf cxOfJson (← field j "tw")
+  let rs ← ratOfJson (← field j "rs")
+  let ts ← arrOf natOfJson (← field j "ts")
+  if bell.size ≠ nf then throw "bell must have length nf"
+  if tw.size ≠ 5 * nf then throw "tw must have length 5*nf"
+  pure (Json.mkObj [("vals", listToJson ratToJson
+    (ts.toList.map (ifftRe nf (fun m => tw[m]!) rs (fun l => bell[l]!))))])
+
 def ops : List (String × (Json → Except String Json)) :=
   [("sdof_bell", bellOp), ("norm_corr", normCorrOp), ("efdd_post", postOp), ("efdd_fit", fitOp), ("efdd_xifn", xifnOp),
-   ("efdd_time", timeOp)]
+   ("efdd_time", timeOp), ("efdd_ifft", ifftOp)]
 
 end PV.Ops.C07
